@@ -924,6 +924,46 @@ func c13DirectedCases(c *ctx) error {
 			return err
 		}
 	}
+	// (3b') an upload straddles the resume: its blobs are written after the interrupted build started
+	// and before the resume, its descriptor lands only after the resumed scan. The blobs are newer than
+	// the index (whose time is that of the FIRST run): delete-unused must leave them alone.
+	for _, crashAt := range []int{1, 2} {
+		crashAt := crashAt
+		if err := c13Directed(c, "c13", fmt.Sprintf("upload-straddles-resume-%d", crashAt), func(h *c13Hist) error {
+			if err := h.up(0, 0, []int{0, 1}); err != nil {
+				return err
+			}
+			if err := h.up(0, 0, []int{2}); err != nil {
+				return err
+			}
+			if h.index(c13IndexSpec{n: 1, ctxs: all, crash: crashAt}) {
+				return nil
+			}
+			time.Sleep(3 * time.Millisecond)
+			h.pool = append(h.pool, tr.GenBytes(uint64(300+crashAt), c13Leaf+33))
+			if err := h.up(0, 0, []int{len(h.pool) - 1}); err != nil {
+				return err
+			}
+			last := h.bundles[len(h.bundles)-1]
+			dkey := model.GetArchivePathToBundle(c13RepoName(0), last.id)
+			saved, ok := h.envs[0].Meta.Raw(dkey)
+			if !ok {
+				return fmt.Errorf("descriptor %s not found", dkey)
+			}
+			h.envs[0].Meta.RemoveRaw(dkey) // not committed yet, as far as the resumed scan can see
+			time.Sleep(3 * time.Millisecond)
+			resumed := h.index(c13IndexSpec{n: 1, ctxs: all, crash: -1, resume: true})
+			h.envs[0].Meta.SetRaw(dkey, saved) // the upload commits now
+			if !resumed {
+				return nil
+			}
+			h.purge(c13PurgeSpec{page: 1024, flist: -1})
+			h.downloads()
+			return nil
+		}); err != nil {
+			return err
+		}
+	}
 	// (3c) ten chunks and more (chunk names are not zero padded: chunk-10 lists before chunk-2),
 	// killed late, then resumed
 	for _, k := range []int{10, 11} {
